@@ -4,6 +4,7 @@ package pdftree
 
 import (
 	"bytes"
+	"io"
 
 	"seehuhn.de/go/pdf"
 	"seehuhn.de/go/pdf/internal/verifrt"
@@ -34,6 +35,9 @@ type verifTree[K comparable] struct {
 	root pdf.Reference
 }
 
+// verifStreamOpen is set by a harness before the tree is written.
+var verifStreamOpen bool
+
 func verifWriteNum(keys []pdf.Integer) (*pdf.Reader, pdf.Reference) {
 	var buf bytes.Buffer
 	w, err := pdf.NewWriter(&buf, pdf.V1_7, &pdf.WriterOptions{HumanReadable: true})
@@ -45,8 +49,19 @@ func verifWriteNum(keys []pdf.Integer) (*pdf.Reader, pdf.Reference) {
 			}
 		}
 	}
+	// optionally the tree is written while a stream is open on the same
+	// Writer (its nodes are then queued until the stream is closed)
+	var ws io.WriteCloser
+	if verifStreamOpen {
+		ws, err = w.OpenStream(w.Alloc(), nil)
+		verifrt.Assert(err == nil, "OpenStream succeeds")
+		ws.Write([]byte("stream data"))
+	}
 	root, err := Write[pdf.Integer, NumCodec](w, seq)
 	verifrt.Assert(err == nil, "Write accepts strictly increasing keys")
+	if ws != nil {
+		verifrt.Assert(ws.Close() == nil, "stream closes")
+	}
 	w.GetMeta().Catalog.Pages = w.Alloc()
 	verifrt.Assert(w.Close() == nil, "Close succeeds")
 	r, err := pdf.NewReader(bytes.NewReader(buf.Bytes()), int64(buf.Len()), nil)
@@ -168,6 +183,7 @@ func Verif_C17_numtree_real_fanout() {
 		sizes = append(sizes, 128, 129)
 	}
 	n := sizes[verifrt.Choice("size", len(sizes))]
+	verifStreamOpen = verifrt.Choice("streamopen", 2) == 1
 	// concrete keys (the tree shape is what matters at these sizes); the
 	// probe of verifCheckNumTree is symbolic, so every position relative to
 	// every /Limits pair is decided
